@@ -101,6 +101,14 @@ reg(Prop("C15", ["Properties_C15"], [
     Stream("floatenc", "enc", lambda ctx: [c for c in streamgen.enc_cases(ctx) if c.split()[0] in ("half", "single", "double")],
            stateless=True, flavours=("rel", "dbg"), nontrivial=lambda c, l: True,
            rule="cbor_encode_half on every exponent class x boundary mantissas (incl. values no half can represent: totality), singles, doubles"),
+    # the float payload path must not depend on the client's floating-point environment: decoded floats of every width and
+    # class, re-serialized, under flush-to-zero / denormals-are-zero (a value conversion on the path would flush subnormals)
+    Stream("floatdec-ftz", "dec1", lambda ctx: [c for c in streamgen.float_dec_cases(ctx) if not c.startswith("f9")] + streamgen.float_dec_cases(ctx)[:65536:37],
+           flavours=("rel",), env={"HX_FPENV": "ftzdaz"}, nontrivial=lambda c, l: True,
+           rule="the single / double pattern sets (every exponent incl. 0 = subnormals x boundary mantissas + random) and a sample of halves through the streaming decoder with MXCSR.FTZ|DAZ set in the client: the callback must still receive the exact bits"),
+    Stream("float-rt-ftz", "loadpost", lambda ctx: [c for c in streamgen.float_dec_cases(ctx) if not c.startswith("f9")][::3] + ["82" + c + c for c in streamgen.float_dec_cases(ctx)[65536::29]],
+           args=(LDEF, CAP), flavours=("rel",), env={"HX_FPENV": "ftzdaz"}, nontrivial=lambda c, l: l.startswith("ok "),
+           rule="float items (singles / doubles of every exponent class, alone and as array elements) decoded by cbor_load with MXCSR.FTZ|DAZ set in the client, read back through the width-specific getters as bits, described, sized, serialized, copied: exact bits (subnormals included)"),
 ], level_note="Flocq theorems about decode_half; sweeps over all half patterns; tied by exhaustive half streams"))
 
 reg(Prop("C02", ["Properties_C02"], [load_stream()],
@@ -326,6 +334,11 @@ PROPS["C03"].streams.append(default_L_stream())
 PROPS["C19"].streams.append(Stream("thr-depth", "thr", histgen.depth_thr_cases, args=(LDEF, CAP), flavours=("tsan", "rel"), nontrivial=lambda c, l: True, timeout=900,
                                    rule="4..16 threads at once, each decoding / copying / serializing / releasing nested items (1..40 levels, every container kind) of its own, under ThreadSanitizer and in the release build: the nesting budget and the decoding stack are per call (any shared counter is a reported race or a spurious MEMERROR)"))
 PROPS["C07"].streams.append(default_L_stream())
+# "the operations a client then performs on a decoded tree (describe, size, serialize, copy, release) ... return": also at the deepest
+# nesting the default build accepts, on the ordinary 8 MiB stack (a per-frame buffer in a recursive walker shows only there)
+PROPS["C01"].streams.append(default_L_stream())
+# "MEMERROR just past a complete head that would nest too deep": the position and code at the default limit, every container kind
+PROPS["C05"].streams.append(default_L_stream())
 PROPS["C04"].streams.append(Stream("limit-load", "hist", histgen.limit_load_cases(3), args=(3, CAP, "none", 0), flavours=("rel",), L=3, timeout=600,
                                    nontrivial=lambda c, l: True, rule="library rebuilt with CBOR_MAX_STACK_SIZE=3: cbor_load of inputs nested L-1 .. L+2 deep inside an API history: live blocks and allocator trace (a record leaked at the limit shows as a live block)"))
 
@@ -414,6 +427,40 @@ PROPS["C14"].streams.append(Stream("bigitem", "bigitem", lambda ctx: [str(2 ** 3
                                    tiers=("thorough", "search"), expect=lambda c: "ok %d len=%d next=ok:1" % (9 + int(c), int(c)), nontrivial=lambda c, l: True,
                                    rule="a definite byte string of 2^31+1 / 2^32 / 2^32+5 bytes followed by another item, in an anonymous mapping (needs ~4 GiB for the decoded copy; thorough tier and failing-input search only): bytes-read must be 9+n and the next decode must find the next item (closed form from C14_sequence)"))
 
+# "for every value in the domain": also when the client passes a buffer_size that only says "plenty of room" (SIZE_MAX, 2^63, 2^32):
+# by C07_enc the result for any size >= 9 is the result for 32
+def enc_huge_cases(ctx):
+    out = []
+    names = list(streamgen.ENC_INT) + streamgen.ENC_NOARG + ["bool", "half", "single", "double"]
+    for name in names:
+        for v in (0, 1, 23, 24, 255, 256, 65535, 65536, 2 ** 32 - 1, 2 ** 32, 2 ** 64 - 1):
+            bits = streamgen.ENC_INT.get(name, 64)
+            if name in streamgen.ENC_NOARG:
+                v = 0
+            elif name == "bool":
+                v = v & 1
+            elif name == "half" or name == "single":
+                v = v & 0xFFFFFFFF
+            elif v >= (1 << bits):
+                continue
+            for n in (4097, 2 ** 31, 2 ** 32, 2 ** 63 - 1, 2 ** 63, 2 ** 64 - 1):
+                out.append("%s %s %d" % (name, ("0x%x" % v) if name in ("half", "single", "double") else str(v), n))
+    return sorted(set(out))
+def _enc32(c):
+    w = c.split()
+    return "%s %s 32" % (w[0], w[1])
+enc_huge = lambda: Stream("enc-huge", "enc", enc_huge_cases, flavours=("rel",), model_case=_enc32, nontrivial=lambda c, l: True,
+                          rule="every encoder on boundary values with buffer_size 4097, 2^31, 2^32, 2^63-1, 2^63 and SIZE_MAX over a 32-byte block: the return value and the image of the block must be those of buffer_size 32 (C07_enc: the result does not depend on the size once it suffices)")
+PROPS["C10"].streams.append(enc_huge())
+PROPS["C07"].streams.append(enc_huge())
+# "keeps no state between calls" also when a callback decodes an embedded buffer itself (a re-entrant call of the streaming
+# decoder from inside a callback, as a client tokenising tag-24 payloads does): the outer result and events must be unchanged
+PROPS["C08"].streams.append(Stream("dec1-reenter", "dec1", lambda ctx: streamgen.dec1_cases(ctx)[::5], flavours=("rel",), env={"HX_REENTER": "1"},
+                                   nontrivial=lambda c, l: c != "-",
+                                   rule="every fifth dec1 case with recording callbacks that call cbor_stream_decode on another buffer before they return (complete and truncated inner item): status / read / required / events of the outer call as without the inner calls"))
+PROPS["C09"].streams.append(Stream("frag-reenter", "frag", streamgen.frag_cases, flavours=("rel",), env={"HX_REENTER": "1"},
+                                   nontrivial=lambda c, l: " " in c and not l.startswith("- "),
+                                   rule="the fragment deliveries with callbacks that re-enter the streaming decoder on another buffer: the client must receive the same events and waits"))
 PROPS["C20"].streams.append(Stream("sizes", "sizes", treegen.sizes_cases, flavours=("rel", "dbg"), spec="sizes_spec", nontrivial=lambda c, l: l != "size=0" or "18446" in c,
                                    rule="cbor_serialized_size on trees whose definite strings carry DECLARED lengths near 2^61..2^64 (length metadata forged as in the library's own overflow tests): sums that fit, wrap exactly and wrap by one, in arrays, maps (key+value subtotal), chunk lists and tags; the spec line is the exact unbounded total or 0"))
 
@@ -483,6 +530,7 @@ api3 = lambda flavours=("rel",), env=None, name="api3": Stream(
 PROPS["C04"].streams.append(api3(("rel", "dbg")))
 PROPS["C03"].streams.append(api3(("rel",)))
 PROPS["C13"].streams.append(api3(("rel",), {"HX_ALLOC": "tag"}, "api3-tag"))
+PROPS["C15"].streams.append(api3(("rel",)))      # vals: cbor_float_get_float as the bits of the double (PWiden.v, C15_get_float_value)
 
 
 # ---- model-fidelity audit (AUDIT.md): targeted cases for branches / boundaries of the models that the older streams did not reach.
